@@ -178,6 +178,10 @@ def make_classes():
         """Every read / move / direct pointer write is observed."""
 
         def __post_init__(self):
+            # whatever the class itself does after construction still happens
+            sup = getattr(super(), '__post_init__', None)
+            if sup is not None:
+                sup()
             mon = _current
             if mon is not None:
                 mon.tape_seq += 1
